@@ -13,6 +13,8 @@ WellFormed == /\ c.m \in 1..12 /\ c.d \in 1..MonthLen(c.y, c.m) /\ c.wd \in 0..6
               /\ c.yd \in 1..(IF Leap(c.y) THEN 366 ELSE 365)
               /\ (c.m = 1 /\ c.d = 1) <=> c.yd = 1
               /\ c.wd = (c.day + 3) % 7
+\* the closed form agrees with the automaton on every day walked
+ClosedForm == ValidCivil(c)
 \* known anchor dates (checked when reached)
 Anchors == /\ c.day = 10957 => (c.y = 2000 /\ c.m = 1 /\ c.d = 1 /\ c.wd = 5)      \* Saturday
            /\ c.day = 11016 => (c.y = 2000 /\ c.m = 2 /\ c.d = 29)
